@@ -776,7 +776,7 @@ fn emit_len(rng: &mut Rng, sink: &mut Sink, n: usize) {
     sink.bump("len_batches");
 }
 
-async fn probe(srv: &Server) {
+async fn probe(srv: &Server, out: &std::path::Path) {
     // the defect class on the pinned tree: policy minimum 30, an 18 character POSIX password
     let cf = Cfg {
         acct: 0,
@@ -788,7 +788,7 @@ async fn probe(srv: &Server) {
     };
     let v = apply_cfg(srv, &cf).await;
     println!("probe view: {}", t_cfg(&v));
-    let args = Args { seed: 1, thorough: false, out: std::env::temp_dir().join("c31probe"), extra: vec![] };
+    let args = Args { seed: 1, thorough: false, out: out.join("probe"), extra: vec![] };
     let mut sink = Sink::new(&args, "KV.C31.Model", 10);
     let mut st = Stats { stored: 0, refused: 0 };
     let comb: Pw = "kqzvwxjpg".chars().map(|c| vec![c, '\u{301}']).collect();
@@ -809,7 +809,7 @@ fn main() {
     if args.extra.iter().any(|a| a == "--probe") {
         rt.block_on(async {
             let srv = setup().await;
-            probe(&srv).await;
+            probe(&srv, &args.out).await;
         });
         return;
     }
